@@ -61,6 +61,16 @@ type ChainSpec struct {
 	// their paths end in different roots.
 	Cross    bool
 	CrossAlt bool
+	// RootTwin (0 none): the submitted chain ends, above the last CA, with a byte-different certificate that
+	// has the subject and key of the trusted root the chain was issued under. 1: a re-issued self-signed
+	// copy of that root (other serial), so the validated path is ..., copy, root; 2: a cross-certificate for
+	// that root issued by the NEXT trusted root, so the validated path is ..., cross, next root.
+	RootTwin int
+	// RootOnly: the submission is a trusted root certificate on its own; the validated path is that one
+	// certificate and the stored chain is empty. Overrides everything but Root.
+	RootOnly bool
+	// Bulk > 0 adds a private padding extension of that many octets to the leaf (large entries).
+	Bulk int
 }
 
 // Built is a resolved ChainSpec.
@@ -105,6 +115,29 @@ func crossCA(root *pki.Cert, kind string) *pki.Cert {
 	return c
 }
 
+var rootTwins = map[string]*pki.Cert{}
+
+// rootTwin returns the twin (kind 1 or 2, see ChainSpec.RootTwin) of standard root i.
+func rootTwin(i, kind int) *pki.Cert {
+	rs := Roots()
+	mu.Lock()
+	defer mu.Unlock()
+	key := fmt.Sprintf("%d/%d", i, kind)
+	if c, ok := rootTwins[key]; ok {
+		return c
+	}
+	r := rs[i]
+	var c *pki.Cert
+	if kind == 1 {
+		c = pki.Issue(nil, pki.CATemplate(fmt.Sprintf("World Root %d", i), r.Key, int64(7100+i), nil), r.Label)
+	} else {
+		x := rs[(i+1)%len(rs)]
+		c = pki.Issue(x, pki.CATemplate(fmt.Sprintf("World Root %d", i), r.Key, int64(7200+i), pki.KeyID(x.Key)), r.Label)
+	}
+	rootTwins[key] = c
+	return c
+}
+
 var preIssuers = map[string]*pki.Cert{}
 
 func preIssuer(parent *pki.Cert, withAKI bool) *pki.Cert {
@@ -128,14 +161,20 @@ func preIssuer(parent *pki.Cert, withAKI bool) *pki.Cert {
 // Build resolves a spec into certificates. Deterministic given the spec (except signature randomness).
 func Build(s ChainSpec) *Built {
 	rs := Roots()
-	root := rs[mod(s.Root, len(rs))]
+	rootIdx := mod(s.Root, len(rs))
+	root := rs[rootIdx]
+	if s.RootOnly {
+		s = ChainSpec{ID: s.ID, Root: s.Root, RootOnly: true, IncludeRoot: true}
+		return &Built{Spec: s, Root: root, Leaf: root, Issuer: root, Path: []*pki.Cert{root}, Full: [][]byte{root.DER}, Submit: [][]byte{root.DER}}
+	}
 	b := &Built{Spec: s, Root: root}
 	ca := root
 	var cas []*pki.Cert
 	for i, kind := range s.Inters {
 		if i == 0 && s.Cross {
 			if s.CrossAlt {
-				root = rs[mod(s.Root+1, len(rs))]
+				rootIdx = mod(s.Root+1, len(rs))
+				root = rs[rootIdx]
 				b.Root = root
 			}
 			ca = crossCA(root, kind)
@@ -161,6 +200,13 @@ func Build(s ChainSpec) *Built {
 	if s.LeafAKI {
 		others = append(others, pki.AKI(pki.KeyID(signer.Key)))
 	}
+	if s.Bulk > 0 {
+		pad := make([]byte, s.Bulk)
+		for i := range pad {
+			pad[i] = byte(uint32(i)*2654435761>>24) ^ byte(s.ID)
+		}
+		others = append(others, pki.Ext{OID: []int{1, 3, 6, 1, 4, 1, 55555, 2}, Value: derx.Octets(pad)})
+	}
 	if s.Quirky {
 		// replace the SAN by one that also holds a malformed iPAddress (5 octets)
 		others[2] = pki.Ext{OID: pki.OIDExtSAN, Value: derx.Seq(derx.TLV(0x82, []byte(cn+".example.com")), derx.TLV(0x87, []byte{10, 0, 0, 1, 9}))}
@@ -181,6 +227,14 @@ func Build(s ChainSpec) *Built {
 	}
 	for i := len(cas) - 1; i >= 0; i-- {
 		b.Path = append(b.Path, cas[i])
+	}
+	switch s.RootTwin {
+	case 1:
+		b.Path = append(b.Path, rootTwin(rootIdx, 1))
+	case 2:
+		b.Path = append(b.Path, rootTwin(rootIdx, 2))
+		root = rs[(rootIdx+1)%len(rs)]
+		b.Root = root
 	}
 	b.Path = append(b.Path, root)
 	for _, c := range b.Path {
@@ -235,6 +289,22 @@ func (b *Built) ExtraData() []byte {
 		panic(err)
 	}
 	return out
+}
+
+// GenSpecX draws a ChainSpec like GenSpec and, rarely, one of the unusual top-of-chain shapes: a twin of
+// the trusted root as last submitted certificate (1 in 5) or a trusted root submitted on its own (1 in 16).
+func GenSpecX(t *rapid.T, label string) ChainSpec {
+	s := GenSpec(t, label)
+	switch rapid.IntRange(0, 9).Draw(t, label+".twin") {
+	case 0:
+		s.RootTwin = 1
+	case 1:
+		s.RootTwin = 2
+	}
+	if rapid.IntRange(0, 15).Draw(t, label+".rootonly") == 0 {
+		s = ChainSpec{ID: s.ID, Root: s.Root, RootOnly: true, IncludeRoot: true}
+	}
+	return s
 }
 
 // LeafKinds are the key kinds used for leaves and intermediates by GenSpec.
